@@ -124,7 +124,7 @@ type AgentCfg struct {
 
 // Op is one script step of the agent.
 type Op struct {
-	Kind    string   `json:"k"` // "R" | "W" | "C"
+	Kind    string   `json:"k"` // "R" | "W" | "C" | "S" (the agent stops retrieving data responses for the next Size ticks)
 	Addr    uint64   `json:"a,omitempty"`
 	Size    uint64   `json:"n,omitempty"` // reads
 	Data    []byte   `json:"d,omitempty"` // writes
@@ -200,6 +200,8 @@ type Agent struct {
 	route   func(addr uint64) messaging.RemotePort
 	ctrl    map[string]messaging.RemotePort
 
+	stallLeft int // ticks left of an "S" op's window (data responses are left on the port)
+
 	pending  map[uint64]span // data requests in flight: id -> byte range
 	cpending map[uint64]bool
 	Log      []Event
@@ -254,7 +256,7 @@ func CmdOf(s string) memcontrolprotocol.Command {
 
 func (a *Agent) recv() bool {
 	progress := false
-	for {
+	for a.stallLeft == 0 {
 		m := a.memPort().RetrieveIncoming()
 		if m == nil {
 			break
@@ -326,6 +328,8 @@ func (a *Agent) issueOne() (bool, bool) {
 		return false, false
 	}
 	switch op.Kind {
+	case "S":
+		a.stallLeft = int(op.Size)
 	case "C":
 		dst, ok := a.ctrl[op.Target]
 		if !ok {
@@ -399,6 +403,10 @@ func (a *Agent) issueOne() (bool, bool) {
 
 func (a *Agent) tick() bool {
 	progress := a.recv()
+	if a.stallLeft > 0 {
+		a.stallLeft--
+		progress = true
+	}
 	w := a.cfg.IssueWidth
 	if w < 1 {
 		w = 1
